@@ -87,7 +87,8 @@ def dump(dbpath, pool):
         def skey(g, s):
             g = g.decode() if isinstance(g, bytes) else g
             s = s.decode() if isinstance(s, bytes) else str(s)
-            return GROUPS.index(g) * 10 + SENDERS.index(s)
+            # (a row under a name the check never used shows up as group 9 / sender 9: a difference from the model, not a crash of the check)
+            return (GROUPS.index(g) if g in GROUPS else 9) * 10 + (SENDERS.index(s) if s in SENDERS else 9)
         out.append(sorted((skey(g, s), val("sender_keys", b), 0) for g, s, b in rows))
         local = conn.execute("SELECT registration_id, public_key, private_key FROM identities WHERE recipient_id = -1").fetchall()
     finally:
